@@ -166,10 +166,20 @@ def normalize(ctx, F):
             cb, rets = prune.closure_ret(F, a[1])
             caps = a[1][2]
             lits = literals(b, R, bb)
-            guard = any((l[0] == 'true' and ((l[1][0] == 'bin' and l[1][1] == 'Gt') or is_call(l[1], 'PartialOrd::gt'))) for l in lits)
+            guard = any(op_ == 'Gt' for op_, x_, y_ in prune.cmp_facts(lits))
             isdiv = bool(rets) and is_call(rets[0], 'DivAssign::div_assign') and rets[0][2][1] == ('upvar', 'norm')
             divs.append((caps, guard, isdiv))
     same = len(divs) == 2 and s(divs[0][0]) == s(divs[1][0]) and all(d[1] and d[2] for d in divs)
+    # nothing else writes the rows: every other &mut use of self's arrays is iteration plumbing
+    from ..effects import mut_calls, assigns
+    PLUMBING = {'outer_iter_mut', 'rows_mut', 'axis_iter_mut', 'iter_mut', 'next', 'zip', 'into_iter', 'enumerate', 'view_mut', 'row_mut', 'index_mut', 'for_each'}
+    others = [w for w in mut_calls(b, R) if w.callee.name not in PLUMBING and w.callee.name != 'map_inplace'
+              and any(isinstance(x, tuple) and x[:2] == ('field', ('param', 'self')) for a_ in w.args[:1] for x in walk(a_))]
+    others += [w for w in assigns(b, R) if any(isinstance(x, tuple) and x[:2] == ('field', ('param', 'self')) for x in walk(w.target))]
+    if others:
+        w = others[0]
+        ctx.bad('C15.R2', site + '#other-writes', 'a row or bias entry is written by something other than the division by the row norm (%s): the result is no positive scaling of the original row'
+                % (w.callee.short if hasattr(w, 'callee') else 'assignment'), getattr(w, 'span', b.span))
     if okz and norm_ok and same:
         ctx.ok('C15.R2', site, 'row i and bias i are divided by the same sqrt(sum x^2) of row i, only under norm > eps', b.span)
     else:
@@ -235,6 +245,15 @@ def duplicates(ctx, F):
             ix = any(s(z) == s(i) for z in walk(x))
             return bool(fx) and bool(fy) and ix
         ok = len(mat) == 1 and len(bias) == 1 and on_norm(mat[0], 'mat') and on_norm(bias[0], 'bias')
+        # the indices found in the comparison copy are applied to self: the copy must be self row for row (normalize keeps count and order of rows)
+        norms = {s(z) for l in mat + bias for z in walk(l[1]) if is_call(z, 'AffFuncBase::normalize')}
+        aligned = bool(norms) and all(z[2][0] == ('param', 'self') for z in norms)
+        rets = [e for _, e in R.return_expr()]
+        applied = len(rets) == 1 and is_call(rets[0], 'AffFuncBase::remove_rows') and rets[0][2][0] == ('param', 'self') and s(a[0]) in [s(z) for z in walk(rets[0][2][1])]
+        site2 = 'AffFuncBase::remove_duplicate_rows#index-space'
+        (ctx.ok if aligned and applied else ctx.bad)('C15.R3', site2, 'duplicates are located in normalize(self) (same rows, same order) and removed from self by those indices' if aligned and applied else
+                                                     ('the rows compared are not the rows of self in self\'s order (%s): indices found there address other rows of self' % ', '.join(fmt(z)[:60] for z in norms)
+                                                      if not aligned else 'the collected indices are not removed from self'), b.span)
         # the row index compared in both tests is the same pair (i, j)
         if ok:
             def idxs(l):
